@@ -365,7 +365,7 @@ func genCfg(seed uint64, n int, tier string, emit func(string, []string, any)) {
 		{path: append(append([]string{}, rc...), "engine"), vals: []any{"gin", "echo", "mux", "chi", "fiber", "express", "", "GIN"}},
 		{path: append(append([]string{}, rc...), "outputPath"), del: true},
 		{path: append(append([]string{}, rc...), "outputPath"), vals: []any{"./out/r.go", "", "./dist/deep/er/routes.go"}},
-		{path: append(append([]string{}, rc...), "outputFilePerms"), vals: []any{"0600", "0644", "644", "0999", "abc", "", "07777", "0777", "1644", "0000", "400", "0755", "7777", "17777", "0o644", "-644", "+644", " 644", "0640"}},
+		{path: append(append([]string{}, rc...), "outputFilePerms"), vals: []any{"0600", "0644", "644", "0999", "abc", "", "07777", "0777", "1644", "0000", "400", "0755", "7777", "17777", "0o644", "-644", "+644", " 644", "0640", "0600 ", "600\n", " ", "\t0400"}},
 		{path: append(append([]string{}, rc...), "engine"), vals: []any{5, true, []any{"gin"}, nil}},
 		{path: append(append([]string{}, o...), "info"), vals: []any{"text", nil}},
 		{path: append(append([]string{}, o...), "securitySchemes"), vals: []any{[]any{}, nil, []any{map[string]any{"description": "d", "name": "sec0", "fieldName": "x-key", "type": "apiKey", "in": "header"}, map[string]any{"description": "", "name": "9", "type": "nope", "in": "body"}}}},
@@ -387,7 +387,7 @@ func genCfg(seed uint64, n int, tier string, emit func(string, []string, any)) {
 		}},
 		{path: append(append([]string{}, rc...), "validateResponsePayload"), vals: []any{true, "yes"}},
 		{path: append(append([]string{}, rc...), "outputFilePerms"), del: true},
-		{path: append(append([]string{}, rc...), "packageName"), vals: []any{"api", "", "my_routes"}},
+		{path: append(append([]string{}, rc...), "packageName"), vals: []any{"api", "", "my_routes", "apiRoutes", "_generated", "Routes", "v2routes"}},
 		{path: append(append([]string{}, rc...), "packageName"), del: true},
 		{path: append(append([]string{}, rc...), "authorizationConfig", "authFileFullPackageName"), vals: []any{"", "vproj/auth"}},
 		{path: append(append([]string{}, o...), "openapi"), vals: []any{"3.0.0", "3.1.0", "2.0", "3.0.1", ""}},
